@@ -38,11 +38,11 @@ func init() {
 
 func (c *c07) Cases(tier string, seed int64) []core.Case {
 	var cs []core.Case
-	lens := []int{2, 30, 32, 34, 66}
+	lens := []int{0, 2, 30, 32, 34, 66}
 	gs := []int{1, 3}
 	nrand := 60
 	if tier == "thorough" {
-		lens = []int{2, 4, 30, 32, 34, 62, 64, 66, 130}
+		lens = []int{0, 2, 4, 30, 32, 34, 62, 64, 66, 130}
 		gs = []int{1, 2, 5, 16}
 		nrand = 3000
 	}
@@ -135,7 +135,7 @@ func (c *c07) trial(r *core.R, kind string, coder rsec16.Coder, d, p, g int, dat
 	in := make([][]byte, d)
 	saved := make([][]byte, d)
 	for i := range data {
-		in[i] = append([]byte(nil), data[i]...)
+		in[i] = append(make([]byte, 0, len(data[i])+1), data[i]...)
 		saved[i] = in[i]
 	}
 	for _, m := range missing {
@@ -143,7 +143,7 @@ func (c *c07) trial(r *core.R, kind string, coder rsec16.Coder, d, p, g int, dat
 	}
 	par := make([][]byte, p)
 	for _, a := range availPar {
-		par[a] = append([]byte(nil), parity[a]...)
+		par[a] = append(make([]byte, 0, len(parity[a])+1), parity[a]...)
 	}
 	parSaved := make([][]byte, p)
 	copy(parSaved, par)
@@ -203,7 +203,7 @@ func (c *c07) trial(r *core.R, kind string, coder rsec16.Coder, d, p, g int, dat
 		if saved[i] == nil || isIn(i, missing) {
 			continue
 		}
-		if len(in[i]) == 0 || &in[i][0] != &saved[i][0] && l > 0 {
+		if l > 0 && (len(in[i]) == 0 || &in[i][0] != &saved[i][0]) || l == 0 && (in[i] == nil || len(in[i]) != 0) {
 			r.Violate("supplied-shard-replaced", "%s: supplied data shard %d was replaced", desc, i)
 		} else if !bytes.Equal(saved[i], data[i]) {
 			r.Violate("supplied-shard-altered", "%s: supplied data shard %d was altered", desc, i)
